@@ -273,6 +273,8 @@ class Runner(object):
             if not self.live(e[1]):
                 return False
             ctx["fresh"] = self.fresh.pop(e[1], None)
+            if ctx["fresh"] is not None:
+                ctx["pre_log"] = set(sim.log_of(e[1]))
             if ctx["fresh"] is not None and self.members:
                 ctx["dump"] = dump_members(sim, self._dump_path(e[1]))
             sim.tick(e[1], e[2])
@@ -288,6 +290,8 @@ class Runner(object):
             if not self.live(e[1]):
                 return False
             ctx["fresh"] = self.fresh.pop(e[1], None)
+            if ctx["fresh"] is not None:
+                ctx["pre_log"] = set(sim.log_of(e[1]))
             if ctx["fresh"] is not None and self.members:
                 ctx["dump"] = dump_members(sim, self._dump_path(e[1]))
             self._killing(e[1], e[3], lambda: sim.tick(e[1], e[2]))
@@ -607,7 +611,7 @@ class Runner(object):
         # first tick after a restart: the dump is loaded, the committed prefix is applied
         b = ctx.get("fresh")
         if b is not None and e[0] in ("tick", "tick_k") and self.live(e[1]):
-            self._after_first_tick(e[1], b)
+            self._after_first_tick(e[1], b, ctx.get("pre_log"))
             if self.members:
                 self.cov["restart:members-checked"] += 1
                 ments = membership_entries(sim, sim.objs[e[1]])
@@ -620,8 +624,13 @@ class Runner(object):
                 if bad:
                     self.flag("restart:members-not-fold-of-journal-over-dump", bad)
 
-    def _after_first_tick(self, i, b):
+    def _after_first_tick(self, i, b, pre_log=None):
         sim = self.sim
+        if pre_log is not None:
+            # messages handled between the restart and this tick may have replaced acknowledged but uncommitted
+            # entries by a newer leader's (the constructor check has seen them all; committed ones are watched by
+            # restart:committed-entry-changed): the tick itself must keep what was there when it began
+            b = dict(b, need=[x for x in b["need"] if x in pre_log])
         o = sim.objs[i]
         after = sim.log_of(i)
         have = set((x[0], x[1], x[2]) for x in after)
